@@ -43,6 +43,17 @@ def gen_keys(rnd, n):
         for m in rnd.sample(["d", "p", "q", "kid", "alg", "use", "key_ops", "x5t", "zz", "dp"], rnd.randint(0, 4)):
             j[m] = rnd.choice(vals)
         keys.append(j)
+    # type names that are NOT registered but lie next to a registered one (prefix, suffix, one character more or less),
+    # carrying every required member of that neighbour: unknown type -- no thumbprint, equal to nothing
+    near = {"oct": ["octet", "oct ", " oct", "oc", "octt", "o", "oct-", "0ct"], "RSA": ["RSA-PSS", "RSAx", "RS", "xRSA", "RSA ", "R"],
+            "EC": ["EC2", "ECC", "E", "xEC", "EC ", "ECDH", "OKP"]}
+    for t, names in near.items():
+        for nm in names:
+            j = {"kty": nm}
+            for m in REQ[t]:
+                if m != "kty":
+                    j[m] = "P-256" if m == "crv" else rnd.choice(["AQAB", "0vx7agoebGcQSuuPiLJXZptN9nndrQmbXEps2aiAFbWhM78LhWx4"])
+            keys.append(j)
     return keys
 
 
